@@ -1,7 +1,440 @@
 import BarterModel.Lemmas.BookManager
+/-!
+# C05M (sub-check of C05) — order book event dispatch, `OrderBookMap` and the L2 manager
+
+Statements only (proofs in `Lemmas/BookManager.lean`, which builds on `Lemmas/Book.lean` of C05).
+The concrete model is `Model/BookManager.lean` (what `drv_c05m model` executes): `Level` with its
+derived order, `upsert_single` with the transcribed `slice::binary_search_by`, `OrderBook` with
+`sequence` / `time_engine`, `OrderBook::new` for arbitrary input, `update`, `snapshot(depth)`,
+`OrderBookMapSingle` / `OrderBookMapMulti` over shared cells, and `OrderBookL2Manager::run`.
+The abstract side (what `drv_c05m spec` executes) is the per-cell fold `specRun` over `SCell`
+(copied fields + bag of prices per side + the price → amount maps of C05 while the cell is clean).
+
+Quantifiers: every statement is for *all* level lists (unsorted, duplicate prices, zero or
+negative amounts), all sequences / times, all maps (several keys may share one cell) and all
+finite streams, unless a hypothesis says otherwise. `WSorted` ("weak book order": never a level
+behind one it should precede; equal prices may repeat) is what `OrderBook::new` establishes for
+every input (`new_any_input`), so `WSortedBook sn` is no restriction on events built through the
+public constructor. `Sorted` / `WFBook` are the strict C05 notions (one level per price, and no
+zero amount).
+-/
 namespace BarterModel.Props.C05M
 open BarterModel.Book BarterModel.BookManager
 
+/-! ## 1. `Level`: derived `PartialEq` / `Ord` -/
+
+/-- The derived order is the lexicographic order on `(price, amount)`. -/
+theorem level_order_is_lexicographic (a b : Level) :
+    (levelCmp a b = .lt ↔ a.price < b.price ∨ (a.price = b.price ∧ a.amount < b.amount)) ∧
+    (levelCmp a b = .gt ↔ b.price < a.price ∨ (b.price = a.price ∧ b.amount < a.amount)) ∧
+    levelCmp a b = levelCmpSpec a b :=
+  ⟨levelCmp_lt_iff a b, levelCmp_gt_iff a b, levelCmp_eq_spec a b⟩
+
+/-- `Ord` is consistent with `Eq` (`cmp == Equal` iff `==` iff the levels are the same), it is
+antisymmetric, transitive and total: a lawful total order. -/
+theorem level_order_lawful (a b c : Level) :
+    (levelCmp a b = .eq ↔ a = b) ∧ (levelEq a b = true ↔ a = b) ∧
+    (levelCmp a b).swap = levelCmp b a ∧
+    (levelLe a b = true → levelLe b c = true → levelLe a c = true) ∧
+    (levelLe a b || levelLe b a) = true ∧
+    (levelLe a b = true → levelLe b a = true → a = b) :=
+  ⟨levelCmp_eq_iff a b, levelEq_iff a b, levelCmp_swap a b, levelLe_trans a b c, levelLe_total a b,
+   levelLe_antisymm a b⟩
+
+/-- `max` / `min` return one of their arguments, an upper / lower bound of both. -/
+theorem level_max_min (a b : Level) :
+    ((levelMax a b = a ∨ levelMax a b = b) ∧ levelLe a (levelMax a b) = true ∧ levelLe b (levelMax a b) = true) ∧
+    ((levelMin a b = a ∨ levelMin a b = b) ∧ levelLe (levelMin a b) a = true ∧ levelLe (levelMin a b) b = true) :=
+  ⟨levelMax_spec a b, levelMin_spec a b⟩
+
+/-- Sorting levels by the derived order (`Vec<Level>::sort()`, stable or not) has exactly one
+possible result, and that result is in ask order. -/
+theorem level_sort_determined (ls l' : List Level) (hp : l'.Perm ls)
+    (hs : l'.Pairwise (fun a b => levelLe a b = true)) :
+    l' = ls.mergeSort levelLe ∧ WSorted .asks l' :=
+  ⟨levelSort_unique hp hs, hs.imp asksLe_of_levelLe⟩
+
+/-! ## 2. `upsert_single` with the real binary search -/
+
+/-- `binary_search_by` (the std loop, transcribed) on any side in weak book order: `Ok(i)` is the
+**last** level with the searched price; `Err(i)` means no level has it and `i` is the unique
+insertion point. -/
+theorem binary_search_correct (s : Side) (ls : List Level) (h : WSorted s ls) (p : Rat) :
+    (∀ i, binarySearchBy (fun e => s.cmp e.price p) ls = .ok i →
+        ∃ hi : i < ls.length, ls[i].price = p ∧ ∀ x ∈ ls.drop (i + 1), s.before p x.price = true) ∧
+    (∀ i, binarySearchBy (fun e => s.cmp e.price p) ls = .err i →
+        i ≤ ls.length ∧ (∀ x ∈ ls.take i, s.before x.price p = true) ∧
+          (∀ x ∈ ls.drop i, s.before p x.price = true)) :=
+  ⟨fun _ hr => binarySearch_ok h hr, fun _ hr => binarySearch_err h hr⟩
+
+/-- On a strictly ordered side the binary-search `upsert_single` **is** the front-to-back scan of
+the C05 model — the assumption "binary_search_by modelled as a scan" of C05 becomes a theorem, and
+every C05 theorem about `upsertSingle` / `upsert` / `OrderBook.update` holds for the real search. -/
+theorem binary_search_is_scan (s : Side) (ls : List Level) (h : Sorted s ls) (new : Level) (us : List Level) :
+    upsertSingleBS s new ls = upsertSingle s new ls ∧ upsertBS s ls us = upsert s ls us :=
+  ⟨upsertSingleBS_eq_scan new h, upsertBS_eq_scan us h⟩
+
+/-- Weak book order is an invariant of `upsert_single` / `upsert` on every side, for every update
+list. -/
+theorem upsert_keeps_weak_order (s : Side) (ls : List Level) (h : WSorted s ls) (new : Level) (us : List Level) :
+    WSorted s (upsertSingleBS s new ls) ∧ WSorted s (upsertBS s ls us) :=
+  ⟨wsorted_upsertSingleBS new h, wsorted_upsertBS us h⟩
+
+/-- The documented four scenarios, for sides that may hold several levels per price: at the
+upserted price a zero amount removes one level if there is one, any other amount keeps the number of
+levels or makes it 1; no other price is touched. An upsert never *creates* a duplicate and removes
+at most one. -/
+theorem upsert_level_counts (s : Side) (ls : List Level) (h : WSorted s ls) (new : Level) (q : Rat) :
+    countAt (upsertSingleBS s new ls) q =
+      if q = new.price then (if new.amount = 0 then countAt ls q - 1 else max (countAt ls q) 1)
+      else countAt ls q :=
+  countAt_upsertSingleBS new h q
+
+/-! ## 3. `OrderBook::new` for every input -/
+
+/-- "Construct a new sorted OrderBook … levels do not need to be pre-sorted": for **all** inputs the
+constructed sides hold exactly the given levels (a permutation: nothing dropped, nothing merged), in
+weak book order, with the given sequence and time. -/
+theorem new_any_input (seq : Nat) (te : Option Int) (bids asks : List Level) :
+    let b := TBook.new seq te bids asks
+    b.sequence = seq ∧ b.timeEngine = te ∧ b.bids.Perm bids ∧ b.asks.Perm asks ∧ WSortedBook b :=
+  ⟨rfl, rfl, sortLevels_perm _ _, sortLevels_perm _ _, wsortedBook_new seq te bids asks⟩
+
+/-- The constructor neither de-duplicates nor drops zero amounts: the result is strictly ordered
+iff the *input* has pairwise distinct prices, and free of zero amounts iff the input is. -/
+theorem new_strict_iff_input_distinct (s : Side) (ls : List Level) :
+    (Sorted s (sortLevels s ls) ↔ (ls.map Level.price).Nodup) ∧
+    (NonZero (sortLevels s ls) ↔ NonZero ls) ∧
+    (∀ p, countAt (sortLevels s ls) p = countAt ls p) :=
+  ⟨sorted_sortLevels_iff s ls, nonZero_sortLevels_iff s ls,
+   fun _ => (sortLevels_perm s ls).countP_eq _⟩
+
+/-- What the model's stable sort stands for. With pairwise distinct prices *every* sorting
+algorithm gives the model's side; with duplicates the price sequence is still determined (only the
+order among equal-priced levels is the algorithm's choice). -/
+theorem new_sort_determined (s : Side) (ls l' : List Level) (hp : l'.Perm ls) (hs : WSorted s l') :
+    l'.map Level.price = (sortLevels s ls).map Level.price ∧
+    ((ls.map Level.price).Nodup → l' = sortLevels s ls) :=
+  ⟨sortLevels_prices_unique hp hs, fun hn => sortLevels_unique_of_nodup hn hp hs⟩
+
+/-- Constructing again from the levels of a constructed side changes nothing. -/
+theorem new_idempotent (s : Side) (ls : List Level) : sortLevels s (sortLevels s ls) = sortLevels s ls :=
+  sortLevels_of_wsorted (wsorted_sortLevels s ls)
+
+/-! ## 4. dispatch on `Snapshot` / `Update`; `sequence` and `time_engine` -/
+
+/-- A snapshot replaces everything (all four fields). -/
 theorem update_snapshot (b s : TBook) : b.update (.snapshot s) = s := rfl
+
+/-- An update copies `sequence` and `time_engine` from the event and upserts both sides. -/
+theorem update_update (b u : TBook) :
+    b.update (.update u) =
+      ⟨u.sequence, u.timeEngine, upsertBS .bids b.bids u.bids, upsertBS .asks b.asks u.asks⟩ := rfl
+
+/-- History before a snapshot is irrelevant: whatever the book was and whatever happened before,
+after `… Snapshot(s), post` the book is `s` run over `post`. -/
+theorem snapshot_resets_history (b s : TBook) (pre post : List TEvent) :
+    b.run (pre ++ .snapshot s :: post) = s.run post := run_snapshot_resets b s pre post
+
+/-- `sequence` and `time_engine` are those of the last applied event (no hypothesis). -/
+theorem fields_of_last_event (b : TBook) (evs : List TEvent) :
+    (b.run evs).sequence = (evs.getLast?.map (·.book.sequence)).getD b.sequence ∧
+    (b.run evs).timeEngine = (evs.getLast?.map (·.book.timeEngine)).getD b.timeEngine :=
+  run_fields b evs
+
+/-- On strictly ordered books (C05's domain) this model and the C05 model agree event by event and
+over whole histories: forgetting `time_engine` commutes with `update` / `run`. -/
+theorem agrees_with_c05_model (b : TBook) (evs : List TEvent) (h : SortedBook b.toCore)
+    (hs : ∀ sn, TEvent.snapshot sn ∈ evs → SortedBook sn.toCore) :
+    (b.run evs).toCore = b.toCore.run (evs.map TEvent.toCore) := toCore_run h hs
+
+/-! ## 5. invariants of every reachable book -/
+
+/-- Every book obtainable through the public API — `default`, `new` on **any** input, any number of
+`update`s with `Snapshot` / `Update` events built by `new` on any input, `snapshot(depth)` — has both
+sides in weak book order. -/
+theorem reachable_weakly_ordered (b : TBook) (h : Reachable (fun _ => True) b) : WSortedBook b :=
+  reachable_wsorted h
+
+/-- If the level lists handed to `new` for *states* (stand-alone books, `Snapshot` payloads) have
+pairwise distinct prices and no zero amount — `Update` payloads stay unrestricted — every reachable
+book is strictly ordered, has one level per price and no zero amount. -/
+theorem reachable_well_formed (b : TBook) (h : Reachable CleanInput b) : WFBook b.toCore :=
+  reachable_clean_wf h
+
+/-- … and that hypothesis is necessary: strict order is equivalent to weak order plus distinct
+prices, and updates never change the number of levels at a price beyond `upsert_level_counts`. -/
+theorem strict_iff_weak_and_distinct (s : Side) (ls : List Level) :
+    Sorted s ls ↔ WSorted s ls ∧ (ls.map Level.price).Nodup := sorted_iff_wsorted_nodup
+
+/-! ## 6. `snapshot(depth)`; best level -/
+
+/-- `snapshot(depth)` of any reachable book is the first `depth` levels of each side (a prefix;
+the constructor's re-sort changes nothing), same `sequence` and `time_engine`; it is again weakly
+ordered. -/
+theorem snapshot_is_prefix (b : TBook) (h : WSortedBook b) (d : Nat) :
+    b.snapshot d = ⟨b.sequence, b.timeEngine, b.bids.take d, b.asks.take d⟩ ∧ WSortedBook (b.snapshot d) :=
+  ⟨snapshot_eq_take h d, wsortedBook_snapshot h d⟩
+
+/-- a depth at least as large as both sides gives the book itself; depth 0 gives empty sides;
+snapshots compose to the smaller depth -/
+theorem snapshot_laws (b : TBook) (h : WSortedBook b) (d d' : Nat) :
+    (b.bids.length ≤ d → b.asks.length ≤ d → b.snapshot d = b) ∧
+    (b.snapshot 0 = ⟨b.sequence, b.timeEngine, [], []⟩) ∧
+    (b.snapshot d).snapshot d' = b.snapshot (min d' d) := by
+  refine ⟨fun hb ha => ?_, ?_, ?_⟩
+  · rw [snapshot_eq_take h, List.take_of_length_le hb, List.take_of_length_le ha]
+  · rw [snapshot_eq_take h]; simp
+  · rw [snapshot_eq_take (wsortedBook_snapshot h d), snapshot_eq_take h, snapshot_eq_take h]
+    simp [List.take_take]
+
+/-- best = head: the first level of a side is one no other level of the side beats (weakly, for
+sides with repeated prices). -/
+theorem best_is_extremum (s : Side) (ls : List Level) (h : WSorted s ls) (l : Level) (hl : best ls = some l) :
+    l ∈ ls ∧ ∀ x ∈ ls, s.before x.price l.price = false := by
+  obtain ⟨xs, rfl⟩ := List.head?_eq_some_iff.mp hl
+  refine ⟨by simp, fun x hx => ?_⟩
+  simp only [List.mem_cons] at hx
+  rcases hx with rfl | hx
+  · exact Side.before_irrefl s _
+  · have := (List.pairwise_cons.mp h).1 x hx
+    simpa [Side.le] using this
+
+/-! ## 7. `OrderBookMap` -/
+
+/-- `OrderBookMapSingle`: exactly one key, which resolves to its cell; every other key to nothing. -/
+theorem single_map (k c k' : Nat) :
+    (BookMap.single k c).keys = [k] ∧
+    (BookMap.single k c).find k = some c ∧ (k' ≠ k → (BookMap.single k c).find k' = none) := by
+  refine ⟨rfl, by simp [BookMap.find], fun h => ?_⟩
+  simp only [BookMap.find]
+  rw [if_neg (fun e => h e.symm)]
+
+/-- `OrderBookMapMulti::insert`: afterwards the key resolves to the new cell, every other key is
+unchanged, and the key set is the old one plus the key, still without repetition. -/
+theorem multi_insert (books : List (Nat × Nat)) (k c k' : Nat) (hn : ((BookMap.multi books).keys).Nodup) :
+    ((BookMap.multi books).insert k c).find k' = (if k' = k then some c else (BookMap.multi books).find k') ∧
+    (k' ∈ ((BookMap.multi books).insert k c).keys ↔ k' = k ∨ k' ∈ (BookMap.multi books).keys) ∧
+    (((BookMap.multi books).insert k c).keys).Nodup :=
+  ⟨lookup_hashInsert books k c k', mem_keys_hashInsert books k c k', keys_hashInsert_nodup hn k c⟩
+
+/-- A multi map collected from `(key, cell)` pairs: the **last** pair of a key wins, keys are not
+repeated, and `keys` lists exactly the keys `find` resolves (also for the single map). -/
+theorem multi_of_pairs (pairs : List (Nat × Nat)) (k : Nat) :
+    (multiOf pairs).find k = pairs.reverse.lookup k ∧ ((multiOf pairs).keys).Nodup := by
+  refine ⟨?_, foldl_hashInsert_nodup [] pairs List.nodup_nil⟩
+  simp only [multiOf, BookMap.find, foldl_hashInsert_lookup]
+  cases pairs.reverse.lookup k <;> rfl
+
+theorem keys_iff_find (m : BookMap) (k : Nat) : k ∈ m.keys ↔ (m.find k).isSome := by
+  cases m with
+  | single k0 c =>
+    simp only [BookMap.keys, BookMap.find, List.mem_singleton]
+    by_cases h : k0 = k
+    · simp [h]
+    · have h' : ¬ k = k0 := fun e => h e.symm
+      simp [h, h']
+  | multi books => exact (lookup_isSome_iff_mem_keys books k).symm
+
+/-! ## 8. `OrderBookL2Manager::run` -/
+
+/-- **Per-cell fold** (the general form, keys may share cells): after any stream the book in cell
+`c` is its initial book run over exactly the events whose instrument resolves to `c`, in stream
+order; the number of cells never changes. -/
+theorem manager_per_cell (m : BookMap) (heap : Heap) (stream : List TStreamEvent) (c : Nat) :
+    (managerRun m heap stream)[c]? = heap[c]?.map (fun b => b.run (eventsForCell m c stream)) ∧
+    (managerRun m heap stream).length = heap.length :=
+  ⟨managerRun_cell m heap stream c, managerRun_length m heap stream⟩
+
+/-- **Per-instrument fold**: if `k` is the only key of the stream resolving to its cell (always
+the case when no two keys share a cell), the book of instrument `k` after the stream is the fold of
+exactly the events addressed to `k`. -/
+theorem manager_per_instrument (m : BookMap) (heap : Heap) (stream : List TStreamEvent) (k c : Nat)
+    (hk : m.find k = some c)
+    (hinj : ∀ k' ev, TStreamEvent.item k' ev ∈ stream → m.find k' = some c → k' = k) :
+    (managerRun m heap stream)[c]? = heap[c]?.map (fun b => b.run (eventsForKey k stream)) := by
+  rw [managerRun_cell, eventsForCell_eq_eventsForKey hk stream hinj]
+
+/-- **Frame**: `Reconnecting` notices and items for instruments the map does not resolve can be
+deleted from the stream without changing any book; a cell no key of the stream resolves to is
+untouched. -/
+theorem manager_frame (m : BookMap) (heap : Heap) (stream : List TStreamEvent) :
+    managerRun m heap (stream.filter (relevant m)) = managerRun m heap stream ∧
+    (∀ c, (∀ k ev, TStreamEvent.item k ev ∈ stream → m.find k ≠ some c) →
+      (managerRun m heap stream)[c]? = heap[c]?) := by
+  refine ⟨managerRun_filter m heap stream, fun c hc => ?_⟩
+  have : eventsForCell m c stream = [] := by
+    simp only [eventsForCell, List.filterMap_eq_nil_iff]
+    intro se hse
+    cases se with
+    | reconnecting => rfl
+    | item k ev => simp [hc k ev hse]
+  rw [managerRun_cell, this]
+  cases heap[c]? <;> simp [TBook.run]
+
+/-- Running the manager on one stream and then on another (the books are shared state, they persist)
+is running it on the concatenation. -/
+theorem manager_resumes (m : BookMap) (heap : Heap) (s1 s2 : List TStreamEvent) :
+    managerRun m heap (s1 ++ s2) = managerRun m (managerRun m heap s1) s2 := managerRun_append m heap s1 s2
+
+/-- All managed books stay weakly ordered — for every stream whose snapshots were built by `new`
+on any input; and stay well-formed (C05's invariant) when the snapshots are. -/
+theorem manager_keeps_invariants (m : BookMap) (heap : Heap) (stream : List TStreamEvent) :
+    ((∀ b ∈ heap, WSortedBook b) →
+      (∀ k sn, TStreamEvent.item k (.snapshot sn) ∈ stream → WSortedBook sn) →
+      ∀ b ∈ managerRun m heap stream, WSortedBook b) ∧
+    ((∀ b ∈ heap, WFBook b.toCore) →
+      (∀ k sn, TStreamEvent.item k (.snapshot sn) ∈ stream → WFBook sn.toCore) →
+      ∀ b ∈ managerRun m heap stream, WFBook b.toCore) :=
+  ⟨managerRun_wsorted, managerRun_wf⟩
+
+/-- In C05's domain each managed cell is the C05 model's `OrderBook.run` over the cell's events, so
+every C05 theorem (map refinement, `holds_exactly`, best = max / min, mid-prices) applies to it. -/
+theorem manager_cell_is_c05_run (m : BookMap) (heap : Heap) (stream : List TStreamEvent) (c : Nat) (b0 : TBook)
+    (h0 : heap[c]? = some b0) (hb : SortedBook b0.toCore)
+    (hs : ∀ k sn, TStreamEvent.item k (.snapshot sn) ∈ stream → SortedBook sn.toCore) :
+    ∃ b, (managerRun m heap stream)[c]? = some b ∧
+      b.toCore = b0.toCore.run ((eventsForCell m c stream).map TEvent.toCore) :=
+  managerRun_core h0 hb hs
+
+/-! ## 9. refinement to the executable specification (`drv_c05m spec`) -/
+
+/-- A book built by `new` on any input is described by the abstract cell made from it. -/
+theorem spec_of_new (seq : Nat) (te : Option Int) (bids asks : List Level) :
+    RefinesCell (TBook.new seq te bids asks) (SCell.ofBook (TBook.new seq te bids asks)) :=
+  refinesCell_ofBook (wsortedBook_new seq te bids asks)
+
+/-- What the coupling gives for every observable: the copied fields; the price sequence of each
+side is the bag in book order; the best prices and the mid-price are those of the bags; and while
+the cell is clean the whole book, best levels, volume-weighted mid-price and every depth snapshot
+are those of the C05 map specification. -/
+theorem spec_observables (b : TBook) (c : SCell) (h : RefinesCell b c) :
+    b.sequence = c.sequence ∧ b.timeEngine = c.timeEngine ∧
+    b.bids.map Level.price = Bag.inOrder .bids c.bidPrices ∧
+    b.asks.map Level.price = Bag.inOrder .asks c.askPrices ∧
+    b.midPrice = c.midPrice ∧
+    (∀ sp, c.spec? = some sp →
+      b.toCore = sp.book ∧ b.toCore.volumeWeightedMidPrice = sp.volumeWeightedMidPrice ∧
+      best b.bids = PMap.best .bids sp.bids ∧ best b.asks = PMap.best .asks sp.asks ∧
+      ∀ d, (b.snapshot d).toCore = sp.snapshot d) := by
+  refine ⟨h.seq, h.time, h.bidPrices_eq, h.askPrices_eq, h.midPrice_eq, ?_⟩
+  intro sp hsp
+  simp only [SCell.spec?] at hsp
+  cases hm : c.maps with
+  | none => simp [hm] at hsp
+  | some pr =>
+    obtain ⟨mb, ma⟩ := pr
+    simp only [hm, Option.map_some, Option.some.injEq] at hsp
+    subst hsp
+    have hr := h.maps mb ma hm
+    refine ⟨hr.book_eq, hr.vwMidPrice_eq, ?_, ?_, fun d => ?_⟩
+    · have := hr.bids_eq
+      simp only [best, PMap.best_eq_head hr.wfBids]
+      rw [← this]; rfl
+    · have := hr.asks_eq
+      simp only [best, PMap.best_eq_head hr.wfAsks]
+      rw [← this]; rfl
+    · rw [← hr.snapshot_eq d]; rfl
+
+/-- **Refinement of the manager**, for all maps, heaps and streams (snapshots built by `new` on any
+input): if every cell is described by its abstract cell before the run, it is afterwards — where
+the abstract run folds, independently for every cell, the events resolving to it. -/
+theorem manager_refines_spec (m : BookMap) (heap : Heap) (cells : List SCell) (stream : List TStreamEvent)
+    (h : HeapRefines heap cells)
+    (hs : ∀ k sn, TStreamEvent.item k (.snapshot sn) ∈ stream → WSortedBook sn) :
+    HeapRefines (managerRun m heap stream) (specRun m cells stream) := heapRefines_run h hs
+
+/-- the coupling holds initially for any heap of constructed / default books -/
+theorem spec_initial (heap : Heap) (h : ∀ b ∈ heap, WSortedBook b) :
+    HeapRefines heap (heap.map SCell.ofBook) := by
+  refine ⟨by simp, fun i b c hb hc => ?_⟩
+  simp only [List.getElem?_map, hb, Option.map_some, Option.some.injEq] at hc
+  subst hc
+  exact refinesCell_ofBook (h b (List.mem_of_getElem? hb))
+
+/-! ## Non-vacuity and the concrete edge cases
+
+(`new_eval` / `sortLevels_eval` / `sortLevels_of_wsorted` evaluate the constructor: the merge sort
+is defined by well-founded recursion and does not reduce in the kernel.) -/
+
+/-- **The constructor does not de-duplicate**: `OrderBook::new(1, None, [(100,1),(100,2)], [])` holds
+two bid levels at price 100 … -/
+example : TBook.new 1 none [⟨100, 1⟩, ⟨100, 2⟩] [] = ⟨1, none, [⟨100, 1⟩, ⟨100, 2⟩], []⟩ :=
+  new_eval (sortLevels_of_wsorted (by decide +kernel)) (sortLevels_of_wsorted (by decide +kernel))
+
+/-- … an `Update` setting 100 to 5 then changes only one of them (the last), and a delete removes
+only one; the duplicate survives every update and only a `Snapshot` clears it. -/
+example : (TBook.new 1 none [⟨100, 1⟩, ⟨100, 2⟩] []).update (.update (TBook.new 2 none [⟨100, 5⟩] []))
+    = ⟨2, none, [⟨100, 1⟩, ⟨100, 5⟩], []⟩ := by
+  rw [new_eval (seq := 1) (sortLevels_of_wsorted (ls := [⟨100, 1⟩, ⟨100, 2⟩]) (by decide +kernel))
+        (sortLevels_of_wsorted (ls := []) (by decide +kernel)),
+      new_eval (seq := 2) (sortLevels_of_wsorted (ls := [⟨100, 5⟩]) (by decide +kernel))
+        (sortLevels_of_wsorted (ls := []) (by decide +kernel))]
+  decide +kernel
+
+example : (TBook.new 1 none [⟨100, 1⟩, ⟨100, 2⟩] []).update (.update (TBook.new 2 none [⟨100, 0⟩] []))
+    = ⟨2, none, [⟨100, 1⟩], []⟩ := by
+  rw [new_eval (seq := 1) (sortLevels_of_wsorted (ls := [⟨100, 1⟩, ⟨100, 2⟩]) (by decide +kernel))
+        (sortLevels_of_wsorted (ls := []) (by decide +kernel)),
+      new_eval (seq := 2) (sortLevels_of_wsorted (ls := [⟨100, 0⟩]) (by decide +kernel))
+        (sortLevels_of_wsorted (ls := []) (by decide +kernel))]
+  decide +kernel
+
+/-- the hypothesis of `reachable_well_formed` fails for that input and so does its conclusion -/
+example : ¬ CleanInput [⟨100, 1⟩, ⟨100, 2⟩] ∧ ¬ Sorted .bids [⟨100, 1⟩, ⟨100, 2⟩] := by
+  constructor
+  · intro h; exact absurd h.1 (by decide +kernel)
+  · decide +kernel
+
+/-- **Nor does it drop zero amounts**: `OrderBook::new(1, None, [], [(101,0)])` stores an ask level of
+amount 0, which is then the best ask (`mid_price` = 101 on an otherwise empty book). -/
+example : TBook.new 1 none [] [⟨101, 0⟩] = ⟨1, none, [], [⟨101, 0⟩]⟩ ∧
+    (⟨1, none, [], [⟨101, 0⟩]⟩ : TBook).midPrice = some 101 :=
+  ⟨new_eval (sortLevels_of_wsorted (by decide +kernel)) (sortLevels_of_wsorted (by decide +kernel)),
+   by decide +kernel⟩
+
+/-- `volume_weighed_mid_price` divides by the sum of the best amounts: with two zero-amount best
+levels (possible only through such a constructor input) the `Decimal` division panics. -/
+example : TBook.new 1 none [⟨100, 0⟩] [⟨101, 0⟩] = ⟨1, none, [⟨100, 0⟩], [⟨101, 0⟩]⟩ ∧
+    (⟨1, none, [⟨100, 0⟩], [⟨101, 0⟩]⟩ : TBook).vwMidPanics = true :=
+  ⟨new_eval (sortLevels_of_wsorted (by decide +kernel)) (sortLevels_of_wsorted (by decide +kernel)),
+   by decide +kernel⟩
+
+/-- the scan of the C05 model and the real search differ on duplicate prices (first vs last level of
+the run), which is why `binary_search_is_scan` needs strict order -/
+example : upsertSingle .bids ⟨100, 0⟩ [⟨100, 1⟩, ⟨100, 2⟩] ≠ upsertSingleBS .bids ⟨100, 0⟩ [⟨100, 1⟩, ⟨100, 2⟩] := by
+  decide +kernel
+
+/-- unsorted input is sorted: bids descending, asks ascending -/
+example : TBook.new 5 (some 1000) [⟨100, 1⟩, ⟨101, 2⟩] [⟨103, 1⟩, ⟨102, 3/2⟩]
+    = ⟨5, some 1000, [⟨101, 2⟩, ⟨100, 1⟩], [⟨102, 3/2⟩, ⟨103, 1⟩]⟩ :=
+  new_eval (sortLevels_eval (by decide +kernel) (by decide +kernel) (by decide +kernel))
+    (sortLevels_eval (by decide +kernel) (by decide +kernel) (by decide +kernel))
+
+/-- a non-trivial reachable book in the clean world (hypotheses of `reachable_well_formed`) -/
+example : Reachable CleanInput
+    ((TBook.new 5 (some 1000) [⟨100, 1⟩, ⟨101, 2⟩] [⟨103, 1⟩, ⟨102, 3/2⟩]).update
+      (.update (TBook.new 6 none [⟨101, 0⟩, ⟨99, 3⟩, ⟨99, 4⟩] [⟨104, 1⟩]))) := by
+  apply Reachable.updateEvent
+  apply Reachable.new <;> (constructor <;> decide +kernel)
+
+/-- an update with a delete, a duplicate price (the later entry wins) and inserts -/
+example : (⟨5, some 1000, [⟨101, 2⟩, ⟨100, 1⟩], [⟨102, 3/2⟩, ⟨103, 1⟩]⟩ : TBook).update
+      (.update ⟨6, none, [⟨101, 0⟩, ⟨99, 3⟩, ⟨99, 4⟩], [⟨104, 1⟩]⟩)
+    = ⟨6, none, [⟨100, 1⟩, ⟨99, 4⟩], [⟨102, 3/2⟩, ⟨103, 1⟩, ⟨104, 1⟩]⟩ := by decide +kernel
+
+/-- two keys sharing one cell: both instruments' events land in the same book, in stream order
+(the hypothesis of `manager_per_instrument` fails, `manager_per_cell` applies); the item for the
+unknown instrument 7 and the reconnecting notice are skipped -/
+example : managerRun (multiOf [(0, 0), (1, 0)]) [TBook.default]
+      [.item 0 (.update ⟨1, none, [⟨100, 1⟩], []⟩), .reconnecting,
+       .item 7 (.snapshot ⟨9, none, [], []⟩), .item 1 (.update ⟨2, some 5, [⟨99, 2⟩], []⟩)]
+    = [⟨2, some 5, [⟨100, 1⟩, ⟨99, 2⟩], []⟩] := by decide +kernel
+
+/-- the hypotheses of `manager_refines_spec` hold for a default heap and a constructed stream -/
+example : HeapRefines [TBook.default, TBook.default] ([TBook.default, TBook.default].map SCell.ofBook) :=
+  spec_initial _ (fun b hb => by
+    simp only [List.mem_cons, List.not_mem_nil, or_false, or_self] at hb
+    subst hb; exact wsortedBook_default)
 
 end BarterModel.Props.C05M
